@@ -11,3 +11,6 @@ pub mod rings;
 pub mod c15;
 pub mod chans;
 pub mod c08;
+pub mod c01;
+pub mod c13;
+pub mod c14;
